@@ -11,7 +11,7 @@ from ..core.sym import evaluate, strip_sites, place_root, _rebuild
 from ..core.terms import T, show, subterms, subst
 from ..core import guards as G
 from ..core import bytesnf as B
-from .common import SCHEME_VARIANTS, with_mappers
+from .common import SCHEME_VARIANTS, with_mappers, where
 
 
 def switch_roots(P, f, adts=None, computed=False):
@@ -233,3 +233,27 @@ def check_scheme_total(ctx, rule, P, f, root, adt="SignatureSchemes", variants=N
         n += 1 if oks else 0
         ctx.ob(rule, "%s@%s" % (f.key, V), bool(oks), "with %s%s = %s the function %s" % (root[0], root[1], V, "can succeed" if oks else "has no success path: this scheme is refused"), where=where(f))
     return n
+
+
+def check_same_scheme_semantics(ctx, rule, P, floor=2):
+    """`same_scheme(a, b)` is exactly "a and b carry the same variant": evaluated under each of the 9 variant pairs
+    the return value folds to the constant `variant(a) == variant(b)`.  Callers may then treat the call as that atom."""
+    n = 0
+    for k, f in sorted(P.fns.items()):
+        if f.name != "same_scheme" or f.arg_count != 2:
+            continue
+        roots = switch_roots(P, f)
+        n += 1
+        if len(roots) != 2:
+            ctx.ob(rule, k, False, "%s does not dispatch on both operands' variants (roots: %s)" % (k, roots), where=where(f))
+            continue
+        bad = []
+        for a in assumptions(P, f):
+            ev = evaluate(f, a)
+            r = strip_sites(ev.ret)
+            want = len(set(a.values())) == 1
+            got = r.a[1] if r.op == "const" and r.a[0] == "int" else None
+            if got is None or bool(got) != want:
+                bad.append("%s -> %s" % ("/".join(a[r_] for r_, _ in roots), show(r, 3)))
+        ctx.ob(rule, k, not bad, "%s is true exactly on equal variants (9 pairs folded)%s" % (k, "" if not bad else ": " + "; ".join(bad[:3])), where=where(f))
+    ctx.floor(rule, "same_scheme functions", n, floor)
